@@ -55,6 +55,7 @@ def run(repo: Repo, chk: Check) -> None:
     canonicalize(repo, chk)
     lccb(repo, chk)
     dense(repo, chk)
+    overlap_enumerated(repo, chk)
     op_builders(repo, chk)
     subview_pointer(repo, chk)
 
@@ -506,6 +507,23 @@ def dense(repo: Repo, chk: Check) -> None:
                    "the address range is compared with the number of index tuples",
                    "is_dense compares the address range with the number of DISTINCT addresses and does not test self_overlaps(): a self-overlapping "
                    "layout without gaps ([4] -> (1), [4] -> (1)) is reported dense, and constants are re-laid-out at compile time through a map that is not one-to-one")
+
+
+def overlap_enumerated(repo: Repo, chk: Check) -> None:
+    """self_overlaps is the overlap predicate OF the enumeration: its verdict is a function of all_values(). A verdict taken from anything else
+    (steps and bounds in closed form) is one more independently written view of the layout; whether it agrees with the enumeration for every layout
+    (unit bounds, repeated steps, dynamic entries) is not something this analysis can compare, so such a return is an analysis error, never a pass"""
+    chk.rule("C10.overlap-enumerated", "every verdict of self_overlaps is computed from the enumeration all_values() (the same enumeration is_dense measures)", floor=1)
+    f, fl = flow_of(repo, chk, TSL, "TiledStridedLayout.self_overlaps")
+    rets = [s for s in fl.stmts(ast.Return) if s.reachable and s.node.value is not None]
+    if not rets:
+        raise AnalysisError(f"{f.where}: self_overlaps has no return")
+    for n_, s in enumerate(rets, 1):
+        v = fl.cone(s.node.value, s, inline=0)
+        if not norm.contains(v, T("self.all_values()")):
+            raise AnalysisError(f"{s.where()}: self_overlaps answers `{ast.unparse(s.node.value)[:60]}` without consulting all_values(): a second, closed-form overlap test "
+                                "that this analysis cannot compare with the enumeration")
+        chk.ok("C10.overlap-enumerated", f"{f.key}:return#{n_}", s.where(), "the verdict is computed from all_values()")
 
 
 # --------------------------------------------------------------------------- op builders
